@@ -193,6 +193,10 @@ pub struct Peripheral<'a> {
     ext_diag: crate::dp::ExtendedDiagnostics<'a>,
     /// Flag to indicate necessity of polling diagnostics ASAP
     diag_needed: bool,
+    /// Whether the request currently in flight (in the data exchange states) is a diagnostics
+    /// request.  Latched when a new request is started so that `request_diagnostics()` between a
+    /// request and its reply (or its retransmission) cannot change how the reply is interpreted.
+    diag_in_flight: bool,
 
     #[cfg(feature = "debug-measure-roundtrip")]
     tx_time: Option<crate::time::Instant>,
@@ -212,6 +216,7 @@ impl Default for Peripheral<'_> {
             diag: Default::default(),
             ext_diag: Default::default(),
             diag_needed: Default::default(),
+            diag_in_flight: Default::default(),
             #[cfg(feature = "debug-measure-roundtrip")]
             tx_time: Default::default(),
             options: Default::default(),
@@ -438,7 +443,12 @@ impl<'a> Peripheral<'a> {
                 Ok(self.send_diagnostics_request(fdl, tx))
             }
             PeripheralState::DataExchange | PeripheralState::PreDataExchange => {
-                if self.diag_needed {
+                // Only a new request decides between diagnostics and data exchange; a
+                // retransmission must repeat the same service.
+                if self.retry_count == 0 {
+                    self.diag_in_flight = self.diag_needed;
+                }
+                if self.diag_in_flight {
                     Ok(self.send_diagnostics_request(fdl, tx))
                 } else {
                     #[cfg(feature = "debug-measure-roundtrip")]
@@ -558,7 +568,7 @@ impl<'a> Peripheral<'a> {
                 event
             }
             PeripheralState::DataExchange | PeripheralState::PreDataExchange => {
-                if self.diag_needed {
+                if self.diag_in_flight {
                     if self.handle_diagnostics_response(fdl, &telegram).is_some() {
                         self.retry_count = 0;
                         self.diag_needed = false;
